@@ -39,7 +39,8 @@ probe.close_db_conn()
 NSIDS = [0, 10, 828, 14, 4, 12, 100, 118, 8]
 BASES = ["Foo", "foo bar", "Über/sub", "a:b", "x/documentation", "y/documentation/ja", "z/testcases", "Templates in use",
          "Modules/list", "Category tree", "A&B <c>", "ﬁn", "q/testcases/2", "Main:Foo", "T/doc"]
-BODIES = ["k</includeonly>z", "p< includeonly >q</ includeonly >", "text", "  lead and trail  \n", "<noinclude>doc</noinclude>body", "a &amp; <b> \"q\" 'z'", "", "line1\n\nline2\n",
+BODIES = ["x<noinclude>doc\n", " <noinclude>d</noinclude> \n y", "a<noinclude>d</noinclude >b", "m<!-- two\nlines -->n\nrest",
+          "k</includeonly>z", "p< includeonly >q</ includeonly >", "text", "  lead and trail  \n", "<noinclude>doc</noinclude>body", "a &amp; <b> \"q\" 'z'", "", "line1\n\nline2\n",
           "<!-- c -->x<includeonly>i</includeonly>", "{{t|a=b}}\t\ttabs"]
 MODELS = ["wikitext", "Scribunto", "json", "css", "javascript", "sanitized-css"]
 
